@@ -463,6 +463,9 @@ def raw(recipe):
                 t[:, c] = t[prng.choice(_WEDGE_ORDERS), c]
     order = int(recipe.get("order", 1))
     clsname = CLS1[cell] if order == 1 else CLS2[cell]
+    if recipe.get("scale"):
+        # the same mesh in other units (millimetre-size geometry in metres...)
+        P = P * float(recipe["scale"])
     return clsname, P, t.astype(np.int32)
 
 
